@@ -60,6 +60,52 @@ func libComp(q refconv.QComp) nasType.PacketFilterComponent {
 	return nil
 }
 
+// arenaRules rebuilds every byte-slice valued component field (addresses, masks,
+// MAC addresses) of a rule list as a sub-slice of ONE backing array, values laid
+// out one after the other, each slice keeping the rest of the array as spare
+// capacity — what a caller gets who cuts the values out of a received buffer.
+// intact() reports whether the backing array still holds what was put there.
+func arenaRules(lr nasType.QoSRules) (intact func() bool) {
+	var fields []*[]byte
+	for i := range lr {
+		for j := range lr[i].PacketFilterList {
+			for _, cp := range lr[i].PacketFilterList[j].Components {
+				switch x := cp.(type) {
+				case *nasType.PacketFilterIPv4RemoteAddress:
+					fields = append(fields, (*[]byte)(&x.Address), (*[]byte)(&x.Mask))
+				case *nasType.PacketFilterIPv4LocalAddress:
+					fields = append(fields, (*[]byte)(&x.Address), (*[]byte)(&x.Mask))
+				case *nasType.PacketFilterDestinationMACAddress:
+					fields = append(fields, (*[]byte)(&x.MAC))
+				case *nasType.PacketFilterSourceMACAddress:
+					fields = append(fields, (*[]byte)(&x.MAC))
+				}
+			}
+		}
+	}
+	total := 0
+	for _, f := range fields {
+		total += len(*f)
+	}
+	arena := make([]byte, total+16)
+	for i := range arena {
+		arena[i] = 0xa5
+	}
+	off := 0
+	// reverse order: what lies behind an address is then never its own mask
+	for i, j := 0, len(fields)-1; i < j; i, j = i+1, j-1 {
+		fields[i], fields[j] = fields[j], fields[i]
+	}
+	for _, f := range fields {
+		n := len(*f)
+		copy(arena[off:], *f)
+		*f = arena[off : off+n] // capacity runs to the end of the arena
+		off += n
+	}
+	snap := cloneB(arena)
+	return func() bool { return bytes.Equal(arena, snap) }
+}
+
 func libRules(rs []refconv.QRule) nasType.QoSRules {
 	out := nasType.QoSRules{}
 	for _, r := range rs {
@@ -140,9 +186,26 @@ func genRules(r *prng.Rand, n int, compCycle int) []refconv.QRule {
 			f := refconv.QFilter{ID: byte(r.Intn(16)), Dir: byte(1 + r.Intn(3))}
 			if ru.Op != 5 {
 				nc := r.Range(1, 4)
+				big := r.Chance(1, 6) // one filter whose contents take 128..255 octets
+				if big {
+					nc = 64
+				}
+				size := 0
 				for q := 0; q < nc; q++ {
 					t := refconv.CompTypes[(compCycle+i+j+q+r.Intn(3))%len(refconv.CompTypes)]
 					sz, _ := refconv.CompSize(t)
+					if big {
+						if size+1+sz > 255 {
+							if size >= 128 {
+								break
+							}
+							continue
+						}
+						if size >= 128 && r.Chance(1, 4) {
+							break
+						}
+					}
+					size += 1 + sz
 					v := r.Bytes(sz)
 					switch t {
 					case 0x80: // flow label: 20 bits
@@ -172,8 +235,16 @@ func c15Rules(c *core.Ctx, k *core.Case) {
 	want := refconv.SerializeRules(model)
 	c.Eval(1)
 	lib := libRules(model)
+	valuesIntact := func() bool { return true }
+	if k.I[0]&1 == 1 {
+		valuesIntact = arenaRules(lib)
+	}
 	got, err := lib.MarshalBinary()
 	c.Hold(k, "nasType.QoSRules.MarshalBinary", got)
+	if !valuesIntact() {
+		c.Fail(k, "rules-marshal-modifies-value", fmt.Sprintf("MarshalBinary wrote into the memory of the list's own address / mask / MAC values (values cut out of one backing array, each with spare capacity); output %s, reference %s", hx(got), hx(want)))
+		return
+	}
 	if err != nil {
 		c.Fail(k, "rules-marshal-error", fmt.Sprintf("MarshalBinary of a well-formed rule list failed: %v (reference bytes %s)", err, hx(want)))
 		return
@@ -190,6 +261,18 @@ func c15Rules(c *core.Ctx, k *core.Case) {
 		c.Fail(k, "rules-unmarshal-error", fmt.Sprintf("UnmarshalBinary(%s): %v", hx(want), err))
 		return
 	}
+	// a value taken from the receiver variable stays what it was when the variable is decoded into again
+	{
+		var rx nasType.QoSRules
+		if err := rx.UnmarshalBinary(cloneB(want)); err == nil {
+			probe := takeDetached(&rx)
+			other := refconv.SerializeRules(genRules(r, 1+r.Intn(3), int(k.I[2])+1))
+			_ = rx.UnmarshalBinary(other)
+			if probe.changed() {
+				c.Fail(k, "earlier-decoded-value-changed:QoSRules", "a rule list copied out of the receiver variable changed when the variable was decoded into again (the new list was written over the array the earlier result still points to)")
+			}
+		}
+	}
 	if err := back.UnmarshalBinary(cloneB(want)); err != nil || len(back) != len(model) {
 		c.Fail(k, "rules-unmarshal-into-reused-receiver", fmt.Sprintf("a second UnmarshalBinary into the same value gives %d rules (err %v), the list has %d", len(back), err, len(model)))
 		return
@@ -205,6 +288,13 @@ func c15Rules(c *core.Ctx, k *core.Case) {
 	for _, ru := range model {
 		c.Cover("rule_op", fmt.Sprint(ru.Op))
 		for _, f := range ru.Filters {
+			sz := 0
+			for _, q := range f.Comps {
+				sz += 1 + len(q.Val)
+			}
+			if sz >= 128 {
+				c.Cover("filter_contents", "128..255 octets")
+			}
 			for _, q := range f.Comps {
 				c.Cover("component", fmt.Sprintf("%#02x", q.Type))
 			}
@@ -285,6 +375,17 @@ func c15Descs(c *core.Ctx, k *core.Case) {
 	if len(back) != len(model) {
 		c.Fail(k, "descs-roundtrip", fmt.Sprintf("%d descriptions parsed, %d serialised (bytes %s)", len(back), len(model), hx(want)))
 		return
+	}
+	{
+		var rx nasType.QoSFlowDescs
+		if err := rx.UnmarshalBinary(cloneB(want)); err == nil {
+			probe := takeDetached(&rx)
+			other := refconv.SerializeDescs(genDescs(r, 1+r.Intn(3)))
+			_ = rx.UnmarshalBinary(other)
+			if probe.changed() {
+				c.Fail(k, "earlier-decoded-value-changed:QoSFlowDescs", "a description list copied out of the receiver variable changed when the variable was decoded into again (the new list was written over the array the earlier result still points to)")
+			}
+		}
 	}
 	for i, d := range model {
 		b := back[i]
